@@ -1,4 +1,5 @@
 """C04 — operations addressed to one bucket never change any other bucket."""
+from ..rules_commit import check_no_rollback
 from ..rules_store import ddl_facts, forward_bucket, scope_memory, scope_peewee, scope_sqlite
 
 
@@ -22,6 +23,8 @@ def check(prog, rep):
     scope_memory(prog, rep)
     forward_bucket(prog, rep)
     ddl_facts(prog, rep)
+    # a rollback of the shared open transaction undoes buffered writes of *other* buckets
+    check_no_rollback(prog, rep)
 
 
 SQ = "aw_datastore/storages/sqlite.py"
@@ -43,6 +46,7 @@ VARIANTS = [
     ("B Bucket.delete addresses another bucket", DS, "return self.ds.storage_strategy.delete(self.bucket_id, event_id)", "return self.ds.storage_strategy.delete(event_id, self.bucket_id)", "FORWARD"),
     ("B insert_many forwards a constant bucket", "aw_datastore/storages/abstract.py", "            self.insert_one(bucket_id, event)", "            self.insert_one(event.data.get('bucket', bucket_id), event)", "FORWARD"),
     ("B buckets.id not unique", SQ, "        id TEXT UNIQUE NOT NULL,", "        id TEXT NOT NULL,", "SCHEMA"),
+    ("B bulk insert wrapped in `with self.conn` (rollback on error discards other buckets' buffered writes)", SQ, "        self.conn.executemany(query, event_rows)\n", "        with self.conn:\n            self.conn.executemany(query, event_rows)\n", "NO-ROLLBACK"),
     ("OK conjunct order", SQ, "            WHERE bucketrow = (SELECT rowid FROM buckets WHERE id = ?) AND id = ?\n            LIMIT 1\n        \"\"\"\n        rows = c.execute(query, [bucket_id, event_id])", "            WHERE id = ? AND bucketrow = (SELECT rowid FROM buckets WHERE id = ?)\n            LIMIT 1\n        \"\"\"\n        rows = c.execute(query, [event_id, bucket_id])", "ok"),
     ("OK IN sub-select", SQ, "            WHERE bucketrow = (SELECT rowid FROM buckets WHERE id = ?)\n            AND endtime >= ? AND starttime <= ?\n            ORDER BY", "            WHERE bucketrow IN (SELECT rowid FROM buckets WHERE id = ?)\n            AND endtime >= ? AND starttime <= ?\n            ORDER BY", "ok"),
     ("OK peewee where order", PW, "                .where(EventModel.id == event_id)\n                .where(EventModel.bucket == self.bucket_keys[bucket_id])\n                .get()", "                .where(EventModel.bucket == self.bucket_keys[bucket_id])\n                .where(EventModel.id == event_id)\n                .get()", "ok"),
